@@ -324,6 +324,23 @@ fn unicode_case(cx: &mut CaseCtx, input: Input) -> CaseResult {
     Ok(())
 }
 
+// ---- raw source text (what a byte-level fuzzer mutates best) -----------------------------------------
+
+/// The input bytes are the source itself: files separated by U+001E, decoded lossily.  Random
+/// bytes from proptest are a weak baseline; the coverage-guided stage starts this family from the
+/// committed seed files (`fuzz/seeds/C01/text`) with the token dictionary `fuzz/dict/C01-text.dict`.
+fn text_case(cx: &mut CaseCtx, input: Input) -> CaseResult {
+    let all = String::from_utf8_lossy(input.bytes()).into_owned();
+    let texts: Vec<String> = all.split('\u{1e}').take(4).map(|s| s.to_owned()).collect();
+    cx.nontrivial = all.chars().filter(|c| !c.is_whitespace()).count() >= 2;
+    cx.label("raw-text");
+    cx.label_if(texts.len() > 1, "multi-file");
+    cx.sample_with(|| json!({"files": texts}));
+    let (_w, e) = pipeline(&texts, &SliceOptions::default())?;
+    cx.label(if e > 0 { "has-errors" } else { "no-errors" });
+    Ok(())
+}
+
 // ---- valid programs (reach patchers and validators), cycles, docs ---------------------------------------
 
 fn valid_case(cx: &mut CaseCtx, input: Input, cfg: &GenCfg) -> CaseResult {
@@ -492,6 +509,10 @@ impl Check for C01 {
     fn timeout_is_violation(&self) -> bool {
         true
     }
+    fn fuzz_families(&self, _tier: Tier) -> Vec<(&'static str, u64)> {
+        // libFuzzer runs per job (16 jobs), sized from the measured speed of the instrumented build
+        vec![("text", 40000), ("unicode", 40000), ("mutations", 10000), ("valid", 8000)]
+    }
     fn families(&self, tier: Tier) -> Vec<Family<'_>> {
         let len = tier.pick(2, 3);
         let cfg = GenCfg {
@@ -539,6 +560,7 @@ impl Check for C01 {
             Family::enumerate("soups", soup_total(len), 1, move |cx, i| soup_case(cx, i, len)),
             Family::bytes("mutations", 700, tier.pick(4_000, 120_000), move |cx, i| mutation_case(cx, i, &cfg, &corpus)),
             Family::bytes("unicode", 200, tier.pick(3_000, 60_000), unicode_case),
+            Family::bytes("text", 1024, tier.pick(1_000, 20_000), text_case),
             Family::bytes("valid", 700, tier.pick(1_500, 30_000), move |cx, i| valid_case(cx, i, &cfg2)),
             Family::bytes("binary", 700, tier.pick(100, 2_000), move |cx, i| binary_case(cx, i, &cfg3)),
             Family::replay_only("direct", move |cx, i| {
